@@ -393,7 +393,49 @@ func verifC23RoundTrip(forma format.Format, pkts []*rtp.Packet, delivered unit.P
 	return "0"
 }
 
+// a delivered unit, retained WITHOUT copying; `seen` = its packets as formatted when the callback ran
+type verifC23Kept struct {
+	u    *unit.Unit
+	seen string
+}
+
+var verifC23Kepts []verifC23Kept
+
+func verifC23FmtPackets(u *unit.Unit) string {
+	if len(u.RTPPackets) == 0 {
+		return "-"
+	}
+	s := make([]string, len(u.RTPPackets))
+	for i, p := range u.RTPPackets {
+		m := 0
+		if p.Marker {
+			m = 1
+		}
+		s[i] = fmt.Sprintf("%d:%d:%d:%d:%s", p.SSRC, p.SequenceNumber, p.Timestamp, m, verifutil.Hex(p.Payload))
+	}
+	return strings.Join(s, ";")
+}
+
+// `final`: re-read the packets of every unit handed to the reader during this history
+func verifC23Final() string {
+	for i, k := range verifC23Kepts {
+		now := verifC23FmtPackets(k.u)
+		if now != k.seen {
+			if len(now) > 160 {
+				now = now[:160]
+			}
+			seen := k.seen
+			if len(seen) > 160 {
+				seen = seen[:160]
+			}
+			return fmt.Sprintf("changed unit=%d was=%s now=%s", i, seen, now)
+		}
+	}
+	return "same"
+}
+
 func verifC23Answer(st *verifC23State, u *unit.Unit, generated bool) string {
+	verifC23Kepts = append(verifC23Kepts, verifC23Kept{u: u, seen: verifC23FmtPackets(u)})
 	ssrc := "-"
 	pk := "-"
 	if len(u.RTPPackets) != 0 {
@@ -424,6 +466,12 @@ func verifC23Answer(st *verifC23State, u *unit.Unit, generated bool) string {
 
 func verifC23Exec(op string) (res string) {
 	f := strings.Fields(op)
+	if f[0] == "reset" {
+		verifC23Kepts = nil
+	}
+	if f[0] == "final" {
+		return verifC23Final()
+	}
 	if (f[0] == "reset" && len(f) > 3 && f[3] == "aa") || strings.HasPrefix(f[0], "aa") {
 		return verifC23AAExec(f)
 	}
@@ -625,11 +673,27 @@ func verifC23GenPayload(r *verifutil.Rand, codec string, max int) string {
 		}
 		return strings.Join(parts, ",")
 	case "opus":
-		k := 1 + r.Intn(3)
+		// 1..5 Opus packets per unit with mixed TOCs: any config (2.5 .. 60 ms frames), codes 0..3, code 3 with a
+		// frame-count byte (VBR / padding bits set at random), now and then a 1-byte code-3 packet (duration 0)
+		k := 1 + r.Intn(5)
+		if r.Chance(1, 4) {
+			k = 1
+		}
 		parts := make([]string, k)
 		for i := range parts {
-			b := r.Bytes(1 + r.Intn(60))
-			b[0] = byte(r.Intn(32)) << 3 // code 0: one frame
+			b := r.Bytes(2 + r.Intn(40))
+			cfg := byte(r.Intn(32))
+			if r.Chance(1, 2) {
+				cfg = []byte{1, 3, 9, 11, 13, 15, 19, 31}[r.Intn(8)] // 20 / 60 / 20 / 60 / 20 / 20 / 20 / 20 ms families
+			}
+			code := byte(r.Intn(4))
+			b[0] = cfg<<3 | byte(r.Intn(2))<<2 | code
+			if code == 3 {
+				b[1] = byte(r.Intn(4))<<6 | byte(1+r.Intn(6))
+				if r.Chance(1, 12) {
+					b = b[:1]
+				}
+			}
 			parts[i] = verifutil.Hex(b)
 		}
 		return strings.Join(parts, ",")
@@ -695,7 +759,7 @@ func verifC23Gen(r *verifutil.Rand, i int, thorough bool) []string {
 	if (!thorough && i%15 == 7) || (thorough && i%40 == 7) {
 		return verifC23GenAA(r)
 	}
-	codecs := []string{"h264", "h264", "h264", "m4v", "latm", "h265", "av1", "av1", "vp8", "opus", "g711", "lpcm", "klv"}
+	codecs := []string{"h264", "h264", "h264", "m4v", "latm", "h265", "av1", "av1", "vp8", "opus", "opus", "g711", "lpcm", "klv"}
 	codec := codecs[r.Intn(len(codecs))]
 	max := verifC23Max(r)
 	mode := "payload"
@@ -784,7 +848,7 @@ func verifC23Gen(r *verifutil.Rand, i int, thorough bool) []string {
 		}
 		emit(1, pay)
 	}
-	return ops
+	return append(ops, "final")
 }
 
 func verifC23Class(op, impl string) string {
